@@ -25,7 +25,8 @@
 EXTENDS Buffer, Format, Lits
 
 CONSTANTS HookKind,         \* "none" | "plain" | "print" | "panic": what RegisterRedactErrorFn installed
-          NestedOverride    \* "dropped" (the code before the repair of F3) | "inherited"
+          NestedOverride    \* "inherited" (the code) | "dropped" (before the repair of F3: kept so that
+                            \* TLC can exhibit the defect as a counterexample of the C06 invariant)
 
 RTok == 1000000             \* rendering tokens  RTok + index into rt
 PTok == 2000000             \* payload tokens    PTok + payload id (opaque non-empty plain text)
@@ -433,6 +434,11 @@ PrintKind(ps0, v, verb, depth, ro) ==
                          ELSE W(PrintMap(W(ps, MapOpen), v.xs, verb, depth, ro, 1), <<93>>)
     [] v.k = "struct" -> LET a == IF ps.fl.sharpV THEN Rend(ps, "typename", v, VS, 0) ELSE ps
                          IN W(PrintFields(W(a, <<123>>), v, verb, depth, ro, 1), <<125>>)
+    \* a wrapper reached as a plain struct (depth 0, methods suppressed by erroring): struct{a interface{}}
+    [] v.k \in {"safe", "unsafe"} ->
+                         LET a == IF ps.fl.sharpV THEN Rend(ps, "typename", v, VS, 0) ELSE ps
+                             sv == [v EXCEPT !.k = "struct", !.ro = <<TRUE>>]
+                         IN W(PrintFields(W(a, <<123>>), sv, verb, depth, ro, 1), <<125>>)
     [] v.k = "ptrto"  -> IF depth = 0 /\ v.xs[1].k \in {"slice", "struct", "map"} THEN PrintValue(W(ps, <<38>>), v.xs[1], verb, depth + 1, ro)
                          ELSE FmtPointer(ps, v, verb)
     [] v.k = "nilptr" -> FmtPointer(ps, v, verb)
@@ -465,7 +471,9 @@ DoPrintArgs(ps, ts, i, prevString) ==
   ELSE LET isString == IsStringKind(ts[i])
            a == IF i > 1 /\ ~isString /\ ~prevString THEN WByte(ps, SP) ELSE ps
        IN DoPrintArgs(PrintArg(a, ts[i], VV), ts, i + 1, isString)
-DoPrint(ps, ts) == DoPrintArgs(SetMode(ps, MS), ts, 1, FALSE)
+\* doPrint*/doPrintf start in safe mode -- since the repair of F3 not under an Unsafe() override
+EnterPrint(ps) == IF NestedOverride = "inherited" /\ ps.ov = "unsafe" THEN ps ELSE SetMode(ps, MS)
+DoPrint(ps, ts) == DoPrintArgs(EnterPrint(ps), ts, 1, FALSE)
 
 ArgInfo(ts) == [i \in 1..Len(ts) |->
                   IF ts[i].k \in {"int", "uint"} THEN [isInt |-> TRUE, num |-> ts[i].n] ELSE [isInt |-> FALSE, num |-> 0]]
@@ -492,7 +500,7 @@ DoItems(ps, items, ts) ==
                   [] it.t = "Extra"    -> WByte(DoExtra(W([ps EXCEPT !.fl = ClearFlags(@)], ExtraS),
                                                         SubSeq(ts, it.a + 1, Len(ts)), 1), 41)
        IN DoItems(r, Tail(items), ts)
-DoPrintf(ps, f, ts) == DoItems(SetMode(ps, MS), ParseFormat(f, ArgInfo(ts)), ts)
+DoPrintf(ps, f, ts) == DoItems(EnterPrint(ps), ParseFormat(f, ArgInfo(ts)), ts)
 
 ---------------------------------------------------------------------------
 \* entry points: the final printer state; Out is what the caller gets (none if the panic propagated)
